@@ -13,7 +13,7 @@ echo "== files:"; git diff --stat | cat
 go build ./pkg/exec ./pkg/io ./pkg/runtime ./pkg/syntax/... ./pkg/value ./pkg/common ./stdlib/json ./stdlib/file && go build -tags verif ./pkg/server || { echo "RESULT build-fails"; exit 1; }
 ZN_REPO=$wt /verif/tools/baseline.sh || { echo "RESULT baseline-fails"; exit 1; }
 mkdir -p zz_demo && cp -r "$src"/demo/* zz_demo/
-cmd=$(head -1 zz_demo/run.txt)
+cmd=$(head -1 zz_demo/run.txt | sed -E 's#^cd /tmp/[A-Za-z0-9_-]+ *(&&|;) *##')   # some deliveries start with "cd <their worktree> &&"
 echo "== demo with change: $cmd"
 timeout 900 bash -c "$cmd" > /tmp/val-$id.with 2>&1; rcw=$?
 tail -15 /tmp/val-$id.with
